@@ -366,6 +366,7 @@ def gen_history(rng, ncmds, users=("A",), crash=0.0, rmcache=0.0, query=0.0, noa
                 missing.append(d)
     pgen = rng.choice([0.1, 0.3, 0.5])
     cmds = []
+    known = []           # (name, version, flavor) the generator believes declared (a guess, only to aim commands)
     for _ in range(ncmds):
         user = rng.choice(users)
         r = rng.random()
@@ -383,6 +384,10 @@ def gen_history(rng, ncmds, users=("A",), crash=0.0, rmcache=0.0, query=0.0, noa
         kind = rng.choice(["declare"] * 5 + ["declare_tag"] * 3 + ["tag_only"] * 3 + ["conflict"] * 2 +
                           ["undeclare"] * 4 + ["undeclare_nov", "untag", "untag", "untag_nov", "vat", "vat_nov"] +
                           (["assign", "assign", "unassign", "unassign_nov"] if rng.random() < direct_tag * 4 else []))
+        if known and kind not in ("declare", "declare_tag") and rng.random() < 0.75:
+            n, v, kf = rng.choice(known)
+            if rng.random() < 0.85:
+                f = kf
         c = {"user": user, "flavor": f, "name": n}
         if kind in ("declare", "declare_tag", "tag_only", "conflict"):
             c.update(op="declare", version=v, stack=stack, tag=None, dir=None)
@@ -399,10 +404,14 @@ def gen_history(rng, ncmds, users=("A",), crash=0.0, rmcache=0.0, query=0.0, noa
                 c["table"] = "none"
             if rng.random() < 0.12:
                 c["force"] = True
+            if (n, v, f) not in known:
+                known.append((n, v, f))
         elif kind in ("undeclare", "undeclare_nov", "untag", "untag_nov", "vat", "vat_nov"):
             c.update(op="undeclare", version=None if kind.endswith("_nov") else v, stack=stack,
                      tag=t if kind in ("untag", "untag_nov", "vat", "vat_nov") else None,
                      vat=kind in ("vat", "vat_nov"))
+            if kind in ("undeclare", "vat") and (n, v, f) in known and rng.random() < 0.8:
+                known.remove((n, v, f))
         elif kind == "assign":
             c.update(op="assignTag", tag=t, version=v, stack=stack)
         else:
